@@ -405,6 +405,18 @@ def v1(e: Engine, rep: Report):
                     'loops around this read (they test object state)',
                     loc=f.loc(c))
                 continue
+            if not (ok_count and ok_size and ok_loop) and f.cls is None:
+                # the read sits in a module-level helper shared by the
+                # readers: size and loop bound are its callers' business and
+                # are not read through its parameters
+                rep.unknown('V1', f.qname, 'bounded read `%s`' % ' '.join(
+                    ast.unparse(c).split()), 'the read was moved into the '
+                    'module-level helper %s: count / buffer / loop bound '
+                    '(%s / %s / %s) are decided at its call sites, which '
+                    'this rule does not follow through the helper\'s '
+                    'parameters' % (f.name, ok_count, ok_size, ok_loop),
+                    loc=f.loc(c))
+                continue
             cnt = ast.unparse(c.args[1]) if ok_count else ''
             rep.check(ok_count and ok_size and ok_loop, 'V1', f.qname,
                       'bounded read `%s`' % ' '.join(ast.unparse(c).split()),
